@@ -4,7 +4,7 @@
    run / block1_loop / complete_by_requesting_block2 (Model/C05.v) model protocol.py BlockwiseRequest._run and
    _complete_by_requesting_block2; serve_ref (Model/C05Server.v) is the RFC 7959 reference server; serve_script is the server that
    answers with an arbitrary given list of responses.  bsize szx = 2^(szx+4).  Theorems 1-10 are about the regular size exponents 0..6, theorems 11-14 about size exponent 7 (BERT, RFC 8323). *)
-From Verif Require Import Lib.Py Lib.PyLemmas Lib.Tactics Gen.block_kernels Model.C05 Model.C05Server Model.C05Retry Proofs.C05 Proofs.C05Retry Proofs.C05Bert.
+From Verif Require Import Lib.Py Lib.PyLemmas Lib.Tactics Gen.block_kernels Model.C05 Model.C05Server Model.C05Retry Proofs.C05 Proofs.C05Retry Proofs.C05Bert Proofs.C05Audit.
 Open Scope Z_scope.
 
 (* 1. _extract_block partitions the body: block NUM is exactly the bytes at offset NUM*size, it has the full size and the more-flag
@@ -143,11 +143,14 @@ Theorem C05_retried_exchanges_invisible : forall (S : Type) (serve : S -> reques
 Proof. exact @retried_run_unchanged. Qed.
 Print Assumptions C05_retried_exchanges_invisible.
 
-(* ... all copies of a response that reach the client are the same response (so it is immaterial which one arrives first) *)
-Theorem C05_retried_copies_identical : forall r n dr,
-  Forall (eq r) (arriving (repeat r (Datatypes.S n)) dr) /\ hd SFail (arriving (repeat r (Datatypes.S n)) dr) = r.
-Proof. exact arriving_identical. Qed.
-Print Assumptions C05_retried_copies_identical.
+(* ... what the deduplicating layer hands out for one exchange: whatever the number of copies of the request that arrive, the application is
+   invoked once and every copy is answered with that one answer (round 5: replaces a statement that was a tautology about [repeat]) *)
+Theorem C05_retried_copies_from_one_answer : forall (S : Type) (serve : S -> request -> S * sresult) st mid rq n,
+  lookup mid (r_cache st) = None ->
+  exists r, snd (deliver_n serve (Datatypes.S n) st mid rq) = repeat r (Datatypes.S n) /\
+            r = snd (serve (r_inner st) rq) /\ r_inner (fst (deliver_n serve (Datatypes.S n) st mid rq)) = fst (serve (r_inner st) rq).
+Proof. exact @retried_copies_from_one_answer. Qed.
+Print Assumptions C05_retried_copies_from_one_answer.
 
 (* ... hence theorem 3 over the lossy / duplicating network: exactly one reassembled body, the right one, and the right representation *)
 Theorem C05_transfer_correct_under_retries : forall scf e rep, honest_cfg scf e rep ->
@@ -188,6 +191,90 @@ Theorem C05_early_observe_ends_request : forall (S : Type) (serve : S -> request
   block1_loop serve (Datatypes.S f) s cfg cursor size_exp mbse = (s1, [rq], Err AttributeError).
 Proof. exact @block1_early_observe_lemma. Qed.
 Print Assumptions C05_early_observe_ends_request.
+
+(* ---- round 5 (clause audit): run-level statements.  Theorems 4-7 above are about the loops at arbitrary states / about serve_script; the
+        following lift them to [run] against an arbitrary server and cover the client's Block2 follow-up requests. *)
+
+(* 15. One Block2 follow-up request (exponents 0..7): NUM x size = bytes assembled so far, the exponent is min(server's last exponent, limit),
+       more-flag clear, no Block1 option, no payload, Size1 as on the request it repeats. *)
+Theorem C05_block2_request_consistent : forall t acc mbse rq n m szx,
+  rs_block2 acc = Some (n, m, szx) -> 0 <= szx <= 7 -> 0 <= mbse ->
+  generate_next_block2_request t acc mbse = Ok rq ->
+  exists n', rq_block2 rq = Some (n', false, Z.min szx mbse) /\
+             n' * bsize (Z.min (Z.min szx mbse) 6) = blen (rs_payload acc) /\
+             rq_block1 rq = None /\ rq_payload rq = [] /\ rq_size1 rq = rq_size1 t.
+Proof. exact block2_request_consistent_lemma. Qed.
+Print Assumptions C05_block2_request_consistent.
+
+(* 16. ... and over whole runs, against ANY server (answers as Message.decode produces them, remotes with a non-negative exponent): the trace is
+       the Block1 phase (every request carries the application's own Block2 option) followed by the Block2 follow-ups, each of which names a
+       non-negative block with the more-flag clear, carries neither Block1 option nor payload, and never exceeds the client's maximum
+       exponent (the hand-over of the local limit to the response's remote, protocol.py:930-937). *)
+Theorem C05_run_block2_requests_wire : forall (S : Type) (serve : S -> request -> S * sresult) cfg fuel s s' tr o,
+  (forall s rq s' r, serve s rq = (s', SResp r) -> resp_wf2 r) -> 0 <= c_mbse cfg ->
+  run serve fuel s cfg = (s', tr, o) ->
+  exists tr1 tr2, tr = tr1 ++ tr2 /\ Forall (fun q => rq_block2 q = c_block2 cfg) tr1 /\ Forall (b2req_ok (c_mbse cfg)) tr2.
+Proof. exact @run_block2_requests_wire_lemma. Qed.
+Print Assumptions C05_run_block2_requests_wire.
+
+(* 17. Every run against any server is a run against the list of answers that server gave (makes "serve_script is the general server" a
+       theorem), and every response handed to the caller by a run comes out of complete_by_requesting_block2 applied to the last answer of
+       the Block1 phase (the auditor's statements). *)
+Theorem C05_any_server_is_a_script : forall (S : Type) (serve : S -> request -> S * sresult) cfg fuel s s' tr o,
+  run serve fuel s cfg = (s', tr, o) ->
+  exists script, length script = length tr /\ run serve_script fuel script cfg = ([], tr, o).
+Proof. exact @any_server_is_a_script_lemma. Qed.
+Print Assumptions C05_any_server_is_a_script.
+Theorem C05_run_done_is_block2_completion : forall (S : Type) (serve : S -> request -> S * sresult) cfg fuel s s' tr r,
+  run serve fuel s cfg = (s', tr, Done r) ->
+  exists f s1 rq resp mbse cursor size_exp tr1 tr2,
+    tr = tr1 ++ rq :: tr2 /\ block1_request cfg cursor size_exp = Ok rq /\
+    block1_react rq resp cursor size_exp = B1Break /\
+    complete_by_requesting_block2 serve f s1 rq (clear_block1 resp) mbse = (s', tr2, Done r).
+Proof. exact @run_done_is_block2_completion_lemma. Qed.
+Print Assumptions C05_run_done_is_block2_completion.
+
+(* 18. Theorem 4 at run level, for ANY server: a response handed to the caller by any run is the last answer of the Block1 phase itself (no
+       Block2 option, or block 0 — a later block only if the application asked for one — with the more-flag clear), or the exact in-order
+       concatenation of a consistent chain (b2_chain) made of the server's own answers to the follow-up requests, one per request. *)
+Theorem C05_run_done_exact : forall (S : Type) (serve : S -> request -> S * sresult) cfg fuel s s' tr r,
+  run serve fuel s cfg = (s', tr, Done r) ->
+  exists rq resp tr1 tr2, tr = tr1 ++ rq :: tr2 /\ serve_answered serve rq resp /\ rq_block2 rq = c_block2 cfg /\
+    let initial := clear_block1 resp in
+    (r = initial /\ rs_block2 initial = None /\ tr2 = []) \/
+    (exists b, rs_block2 initial = Some b /\ bt_more b = false /\
+               (bt_num b = 0 \/ exists rb, c_block2 cfg = Some rb /\ bt_num rb <> 0) /\ r = clear_block2 initial /\ tr2 = []) \/
+    (exists szx consumed, rs_block2 initial = Some (0, true, szx) /\ b2_chain initial consumed r /\ Forall2 (serve_answered serve) tr2 consumed).
+Proof. exact @run_done_exact_lemma. Qed.
+Print Assumptions C05_run_done_exact.
+
+(* 19. Theorem 5 at run level, for ANY server and any number of representation changes: if every answer of the server that carries a Block2
+       option is a slice of one of its representations tagged with that representation's ETag (ETags distinct) and the application did not
+       ask for a later block, then a body handed to the caller by any run is one whole representation — or, by design (protocol.py:1123),
+       it is one single answer of the server that carried no Block2 option at all. *)
+Theorem C05_run_never_mixed : forall (S : Type) (serve : S -> request -> S * sresult) reps cfg fuel s s' tr r, NoDup (map fst reps) ->
+  (forall rq x, serve_answered serve rq x -> rs_block2 x <> None -> slice_of reps x) ->
+  (c_block2 cfg = None \/ exists m2 s2, c_block2 cfg = Some (0, m2, s2)) ->
+  run serve fuel s cfg = (s', tr, Done r) ->
+  (exists e rep, In (e, rep) reps /\ rs_payload r = rep) \/
+  (exists rq x, serve_answered serve rq x /\ rs_block2 x = None /\ (r = x \/ r = clear_block1 x)).
+Proof. exact @run_never_mixed_lemma. Qed.
+Print Assumptions C05_run_never_mixed.
+
+(* 20. "Missing payload bytes" on the FIRST Block2 block (the last answer of the Block1 phase): a first block with the more-flag whose payload
+       is not a whole number of blocks ends the request at once — with AssertionError (message.py:512), loud but unspecific.
+       A transport failure of a Block2 follow-up ends the request with that failure (the auditor's statements). *)
+Theorem C05_first_block2_partial_payload_errors : forall (S : Type) (serve : S -> request -> S * sresult) f s t initial mbse szx,
+  rs_block2 initial = Some (0, true, szx) -> 0 <= szx <= 6 ->
+  blen (rs_payload initial) mod bsize szx <> 0 ->
+  complete_by_requesting_block2 serve (Datatypes.S f) s t initial mbse = (s, [], Err AssertionError).
+Proof. exact @first_block2_partial_payload_lemma. Qed.
+Print Assumptions C05_first_block2_partial_payload_errors.
+Theorem C05_block2_transport_failure : forall (S : Type) (serve : S -> request -> S * sresult) f s t acc mbse rq s1,
+  generate_next_block2_request t acc mbse = Ok rq -> serve s rq = (s1, SFail) ->
+  block2_loop serve (Datatypes.S f) s t acc mbse = (s1, [rq], Err NetworkError).
+Proof. exact @block2_transport_failure_lemma. Qed.
+Print Assumptions C05_block2_transport_failure.
 
 (* ---- tier B: size exponent 7 / BERT for remotes on reliable transports (maximum_block_size_exp = 7; a message carries
         bert_size mps = 1024 * (maximum_payload_size / 1024) bytes; NUM counts 1024-byte blocks) *)
@@ -310,3 +397,25 @@ Example ex_block2_size_grows_aligned :
                              {| c_body := []; c_mps := 1124; c_mbse := 6; c_block2 := None |} in
   match o with Done r => beqb (rs_payload r) (mkbody 230 9) | _ => false end = true.
 Proof. vm_compute. reflexivity. Qed.
+(* round 5: the application asks for a later block itself (Block2 2/0/64): a final block 2 is handed over as it is (22 bytes), a non-final one
+   cannot be continued and is refused (protocol.py:1112-1113) *)
+Example ex_application_asks_later_block :
+  (let '(_, o) := run_script [SResp {| rs_code := 69; rs_block1 := None; rs_block2 := Some (2, false, 2); rs_etag := Some 4; rs_payload := bslice (mkbody 150 9) 128 150; rs_maxexp := 6; rs_observe := false |}]
+                             {| c_body := []; c_mps := 1124; c_mbse := 6; c_block2 := Some (2, false, 2) |} in
+   match o with Done r => blen (rs_payload r) | _ => -1 end) = 22 /\
+  snd (run_script [SResp {| rs_code := 69; rs_block1 := None; rs_block2 := Some (2, true, 2); rs_etag := Some 4; rs_payload := bslice (mkbody 300 9) 128 192; rs_maxexp := 6; rs_observe := false |}]
+                  {| c_body := []; c_mps := 1124; c_mbse := 6; c_block2 := Some (2, false, 2) |}) = Err UnexpectedBlock2.
+Proof. split; vm_compute; reflexivity. Qed.
+(* premises of theorem 19 are satisfiable: a server that answers everything with the whole of ex_rep as block 0 / final *)
+Definition ex_whole : response :=
+  {| rs_code := 69; rs_block1 := None; rs_block2 := Some (0, false, 6); rs_etag := Some 7; rs_payload := ex_rep; rs_maxexp := 6; rs_observe := false |}.
+Definition ex_const_server (s : unit) (_ : request) : unit * sresult := (s, SResp ex_whole).
+Example ex_run_never_mixed_premise :
+  (forall rq x, serve_answered ex_const_server rq x -> rs_block2 x <> None -> slice_of [(7, ex_rep)] x) /\
+  exists tr r, run ex_const_server 5 tt {| c_body := [1; 2; 3]; c_mps := 1124; c_mbse := 6; c_block2 := None |} = (tt, tr, Done r) /\ rs_payload r = ex_rep.
+Proof.
+  split.
+  - intros rq x (s & s1 & H) _. inv H. exists 7, ex_rep. split; [left; reflexivity|]. split; [reflexivity|].
+    cbn [ex_whole rs_block2 rs_payload]. split; [lia|]. split; [lia|]. split; vm_compute; reflexivity.
+  - eexists _, _. split; vm_compute; reflexivity.
+Qed.
